@@ -11,18 +11,35 @@ Section Errors.
 Definition is_num (v : aval) : bool := match v with AInt _ | ABool _ => true | _ => false end.
 Definition is_alist (v : aval) : bool := match v with AList _ => true | _ => false end.
 
+Definition is_other (k : akind) : bool := match k with KOther _ _ _ => true | _ => false end.
+
+(** arguments whose type may reject a text: int, and other callable types *)
 Definition int_valued (a : argspec) : bool :=
-  akind_eqb (a_kind a) KInt && negb (a_incrementable a).
+  (akind_eqb (a_kind a) KInt || is_other (a_kind a)) && negb (a_incrementable a).
+
+Definition is_failT (o : cast_out) : bool := match o with CFailT => true | _ => false end.
+
+(** the type of the argument rejects texts with ValueError only.  (A TypeError
+    raised by [kind(text)] -- bytes, date ... defaults -- is not caught by
+    [ParseMachine.set_arg_value]: finding F-C07f; this conjunct is its
+    complement.) *)
+Definition kind_type_safe (k : akind) : bool :=
+  match k with
+  | KOther _ d tbl => negb (is_failT d) && forallb (fun e => negb (is_failT (snd e))) tbl
+  | _ => true
+  end.
 
 (** Static well-formedness of an argument: it has a name; a counter starts
-    from a number; a list argument is not value-optional; an argument called
-    "help" is not int-valued (the --help special case assigns a task name to it
-    outside the guarded [set_arg_value]). *)
+    from a number (else F-C07e); a list argument is not value-optional; an
+    argument called "help" has a type that cannot reject a text (the --help
+    special case assigns a task name to it outside the guarded
+    [set_arg_value]); its type raises ValueError only (else F-C07f). *)
 Definition arg_wf (a : argspec) : bool :=
   match a_names a with [] => false | _ => true end
   && (negb (a_incrementable a) || is_num (a_default a))
   && (negb (akind_eqb (a_kind a) KList) || a_incrementable a || negb (a_optional a))
-  && negb (int_valued a && String.eqb (arg_name a) "help").
+  && negb (int_valued a && String.eqb (arg_name a) "help")
+  && kind_type_safe (a_kind a).
 
 Definition rarg_ok (r : rarg) : bool :=
   arg_wf (r_spec r)
@@ -204,10 +221,11 @@ Qed.
 
 (** ** set_value *)
 
-Definition vcond (r : rarg) (v : inval) : bool :=
+Definition vcond (r : rarg) (v : inval) (cast : bool) : bool :=
   match v with
   | IStr _ => true
-  | IBool _ => negb (akind_eqb (a_kind (r_spec r)) KList) || a_incrementable (r_spec r)
+  | IBool _ => (negb (akind_eqb (a_kind (r_spec r)) KList) || a_incrementable (r_spec r))
+               && (negb (is_other (a_kind (r_spec r))) || a_incrementable (r_spec r) || negb cast)
   end.
 
 Lemma mk_ok a raw x :
@@ -219,8 +237,25 @@ Proof.
   destruct H as [H|H]; [rewrite H; reflexivity|]. rewrite H. destruct (akind_eqb _ _); reflexivity.
 Qed.
 
+Lemma cast_lookup_in s tbl o : cast_lookup s tbl = Some o -> In (s, o) tbl.
+Proof.
+  induction tbl as [|[k x] tbl IH]; simpl; [discriminate|].
+  destruct (String.eqb k s) eqn:E; [|auto].
+  apply String.eqb_eq in E. subst k. intros [= <-]. left. reflexivity.
+Qed.
+
+Lemma type_safe_cast ty d tbl s :
+  kind_type_safe (KOther ty d tbl) = true -> cast_other d tbl s <> CFailT.
+Proof.
+  unfold kind_type_safe, cast_other. rewrite andb_true_iff. intros [Hd Ht].
+  destruct (cast_lookup s tbl) as [o|] eqn:E.
+  - apply cast_lookup_in in E. rewrite forallb_forall in Ht. specialize (Ht _ E). cbn [snd] in Ht.
+    intros ->. discriminate Ht.
+  - intros ->. discriminate Hd.
+Qed.
+
 Lemma set_value_ok r v cast :
-  rarg_ok r = true -> vcond r v = true ->
+  rarg_ok r = true -> vcond r v cast = true ->
   match set_value r v cast with
   | Ok r' => rarg_ok r' = true /\ r_spec r' = r_spec r
   | Err e => e = EValue /\ int_valued (r_spec r) = true /\ (exists s, v = IStr s)
@@ -243,6 +278,16 @@ Proof.
     + simpl in Hv. destruct val; try discriminate. simpl.
       destruct v as [s|b]; [|discriminate]. simpl.
       split; [apply mk_ok; auto | reflexivity].
+    + assert (Ts : kind_type_safe (KOther ty ko_default ko_table) = true).
+      { unfold arg_wf in W. rewrite !andb_true_iff in W. destruct W as [_ Ts]. rewrite K in Ts. exact Ts. }
+      destruct cast; [destruct v as [s|b]|]; simpl.
+      * pose proof (type_safe_cast ty ko_default ko_table s Ts) as Nt.
+        destruct (cast_other ko_default ko_table s); simpl;
+          try (split; [apply mk_ok; auto; left; rewrite K; reflexivity | reflexivity]).
+        -- split; [reflexivity|]. split; [|eauto]. unfold int_valued. simpl. rewrite K, Inc. reflexivity.
+        -- congruence.
+      * simpl in Hc. discriminate Hc.
+      * split; [apply mk_ok; auto; left; rewrite K; reflexivity | reflexivity].
 Qed.
 
 (** ** put_arg / set_arg_value *)
@@ -279,7 +324,7 @@ Qed.
 (** raw: the only possible error is the ValueError of [int()] *)
 Lemma set_arg_value_R m f v cast :
   invc m = true ->
-  (forall r, get_arg m f = Some r -> vcond r v = true) ->
+  (forall r, get_arg m f = Some r -> vcond r v cast = true) ->
   match set_arg_value m f v cast with
   | Ok m' => invc m' = true /\ same_frame m m'
   | Err e => e = EValue /\ exists r s, get_arg m f = Some r /\ int_valued (r_spec r) = true /\ v = IStr s
@@ -298,7 +343,7 @@ Qed.
 (** unguarded assignment: needs a target that cannot fail to convert *)
 Lemma set_arg_value_L m f v cast :
   invc m = true ->
-  (forall r, get_arg m f = Some r -> vcond r v = true) ->
+  (forall r, get_arg m f = Some r -> vcond r v cast = true) ->
   (forall r s, get_arg m f = Some r -> v = IStr s -> int_valued (r_spec r) = false) ->
   L m (set_arg_value m f v cast).
 Proof.
@@ -310,7 +355,7 @@ Qed.
 (** the guarded assignment of see_value / see_positional_arg *)
 Lemma set_arg_value_checked_L m f v cast :
   invc m = true ->
-  (forall r, get_arg m f = Some r -> vcond r v = true) ->
+  (forall r, get_arg m f = Some r -> vcond r v cast = true) ->
   L m (checked (set_arg_value m f v cast)).
 Proof.
   intros I Hc. pose proof (set_arg_value_R m f v cast I Hc) as R.
@@ -334,8 +379,9 @@ Proof.
   intros r' G'. rewrite G in G'. injection G' as <-.
   pose proof (invc_get_arg _ _ _ I G) as Okr. unfold rarg_ok, arg_wf in Okr.
   apply andb_true_iff in O. destruct O as [_ O].
-  rewrite !andb_true_iff in Okr. destruct Okr as [[[[_ _] Hl] _] _].
-  simpl. rewrite O in Hl. simpl in Hl. rewrite orb_false_r in Hl. exact Hl.
+  rewrite !andb_true_iff in Okr. destruct Okr as [[[[[_ _] Hl] _] _] _].
+  simpl. rewrite O in Hl. simpl in Hl. rewrite orb_false_r in Hl. rewrite Hl. simpl.
+  rewrite orb_true_r. reflexivity.
 Qed.
 
 Lemma res_update_frame m res' :
@@ -400,7 +446,7 @@ Proof.
   intros W. unfold rarg_ok, init_arg, init_value; simpl. rewrite W. simpl.
   destruct (a_incrementable a) eqn:Inc.
   - unfold arg_wf in W. rewrite Inc in W. rewrite !andb_true_iff in W.
-    destruct W as [[[_ W] _] _]. exact W.
+    destruct W as [[[[_ W] _] _] _]. exact W.
   - destruct (a_kind a); reflexivity.
 Qed.
 
@@ -490,7 +536,7 @@ Proof.
   assert (existsb (fun r0 => mem (to_flag (main_name (r_spec r))) (arg_flags (r_spec r0))) args = true).
   { apply existsb_exists. exists r. split; [exact In|].
     rewrite forallb_forall in O. specialize (O r In). unfold rarg_ok, arg_wf in O.
-    rewrite !andb_true_iff in O. destruct O as [[[[Hn _] _] _] _].
+    rewrite !andb_true_iff in O. destruct O as [[[[[Hn _] _] _] _] _].
     unfold main_name, arg_flags. destruct (a_names (r_spec r)) as [|n ns]; [discriminate|].
     simpl. rewrite String.eqb_refl. reflexivity. }
   congruence.
@@ -561,9 +607,9 @@ Proof.
                    (set_arg_value (set_flag m2 (Some f) false) f (IBool (negb inverse)) true)).
     { apply set_arg_value_L; [exact I3| |intros ? ? _ E; discriminate E].
       intros r' G'. rewrite Ga in G'. injection G' as <-.
-      simpl. unfold takes_value in Tv.
-      destruct (a_kind (r_spec r)); simpl; try reflexivity.
-      destruct (a_incrementable (r_spec r)); [reflexivity | discriminate]. }
+      unfold vcond. unfold takes_value in Tv.
+      destruct (a_kind (r_spec r)); simpl; try reflexivity;
+        destruct (a_incrementable (r_spec r)); try reflexivity; discriminate. }
     destruct (set_arg_value (set_flag m2 (Some f) false) f (IBool (negb inverse)) true) as [m4|e];
       [|exact LL].
     destruct LL as [I4 F4]. split; [exact I4 | exact (same_frame_trans _ _ _ F3 F4)]. }
@@ -643,7 +689,7 @@ Proof.
     apply L_G with (m := m); [exact R|]. apply set_arg_value_L; [exact I | reflexivity|].
     intros r0 s0 G0 _. rewrite GA in G0. injection G0 as <-.
     pose proof (invc_get_arg _ _ _ I GA) as Okr. unfold rarg_ok, arg_wf in Okr.
-    rewrite !andb_true_iff, negb_true_iff in Okr. destruct Okr as [[_ Hx] _].
+    rewrite !andb_true_iff, negb_true_iff in Okr. destruct Okr as [[[_ Hx] _] _].
     rewrite Hh, andb_true_r in Hx. exact Hx.
   - apply L_G with (m := m); [exact R|]. apply switch_to_flag_L; [exact I|].
     unfold flag_known. rewrite IC. simpl. unfold find_flag. rewrite FF. apply orb_true_r.
